@@ -717,6 +717,7 @@ Section Out.
     po_lt : forall kw, In kw (k_watches k) -> (kw_wd kw < k_next_wd k)%N;
     po_wds : NoDup (map kw_wd (k_watches k));
     po_live : forall x wd, alookup beqb x (wfp r) = Some wd -> exists kw, In kw (k_watches k) /\ kw_wd kw = wd;
+    po_mask : forall kw, In kw (k_watches k) -> kw_mask kw = c_mask C;
     (* forgetting the departed sub-tree gives a synchronised state *)
     po_clean : RSync C w (kset_queue (snd (forget_tree (wfp r) p (rclr r) k)) []) (fst (forget_tree (wfp r) p (rclr r) k));
     po_cover : Cover C (w_fs w) k r;
@@ -779,6 +780,7 @@ Section Out.
     - intros kw Hk. rewrite Ewa in Hk. rewrite Enw. now apply (wi_lt _ _ _ _ I).
     - rewrite Ewa. apply I.
     - intros x wd Hx. rewrite Ewf in Hx. rewrite Ewa. apply (wi_tight _ _ _ _ I) in Hx as [Hx _]. exact Hx.
+    - intros kw Hk. rewrite Ewa in Hk. now apply (wi_mask _ _ _ _ I).
     - (* the clean state *)
       rewrite Ewf, Ef. cbn [fst snd].
       assert (Hwk : k_watches (kset_queue kC []) = filter f (k_watches k)) by (cbn; now rewrite F1, Ewa).
@@ -906,9 +908,12 @@ Section Out.
     (forall d, In d (notified o) -> blw h d = false) -> apply_op w o = Some w' ->
     let k1 := kernel_op k (w_fs w) o in k_queue k1 <> [] ->
     exists r' k' evs, read_batch C (w_fs w') (r, drainq k1, []) (k_queue k1) = Done (r', k', evs) /\
-      JSync w' k' r' /\ Forall (rsafe C) evs.
+      JSync w' k' r' /\ Forall (rsafe C) evs /\
+      (* the same events as from the synchronised state in which the sub-tree is already forgotten *)
+      exists kc rc k2, RSync C w kc rc /\
+        read_batch C (w_fs w') (rc, drainq (kernel_op kc (w_fs w) o), []) (k_queue (kernel_op kc (w_fs w) o)) = Done (r', k2, evs).
   Proof.
-    intros M PO Ho Hnh Ha k1 Qne. destruct PO as [Ppend Pck Pq Ptight Plt Pwds Plive Pclean Pcov Pstale].
+    intros M PO Ho Hnh Ha k1 Qne. destruct PO as [Ppend Pck Pq Ptight Plt Pwds Plive Pmask Pclean Pcov Pstale].
     destruct (forget_tree_fold p (wfp r) (rclr r)) as (wds & rC & Hfold & Hwds).
     rewrite Hfold in Pclean. cbn [fst snd] in Pclean.
     set (kC0 := kset_queue (fold_left krm_watch wds k) []) in *.
@@ -930,7 +935,7 @@ Section Out.
     assert (KR1 := kernel_op_krel (keepf wds) k kC0 (w_fs w) o KR NH). fold k1 in KR1.
     set (kCc := kernel_op kC0 (w_fs w) o) in *.
     destruct (cover_step_safe C Hfaults w kC0 rC o w' M Pclean Ho Ha) as (r2 & k2 & evs & Hrd & S2 & Hsafe). fold kCc in Hrd.
-    destruct KR1 as (KA & KB & KD & KE). rewrite KE in Hrd.
+    assert (Hrd0 := Hrd). destruct KR1 as (KA & KB & KD & KE). rewrite KE in Hrd.
     exists r2. destruct (k_queue k1) as [|e1 rest] eqn:EQ; [contradiction|].
     (* the first record settles the candidate: the sub-tree is forgotten *)
     assert (He1 : is_moved_to (k_mask e1) && N.eqb (k_cookie e1) c && amem N.eqb (k_wd e1) (pfw r) = false).
@@ -959,7 +964,7 @@ Section Out.
     assert (B2 := read_batch_keq (qextj ig) (qextj_add ig) (qextj_rm ig) (w_fs w') rest ra ka' ka xa QJ1). rewrite Hrd in B2.
     destruct (read_batch C (w_fs w') (ra, ka', xa) rest) as [[[rb kb] xb]|] eqn:Er; [|contradiction].
     cbn in B2. destruct B2 as (-> & -> & QJ2).
-    exists kb, evs. split; [reflexivity|]. split; [|exact Hsafe].
+    exists kb, evs. split; [reflexivity|]. split; [|split; [exact Hsafe | exists kC0, rC, k2; split; [exact Pclean | exact Hrd0]]].
     (* dead descriptors *)
     assert (D0 : dinv (fun wd => In wd wds) kF rC).
     { intros wd Hw. destruct (Hwds wd Hw) as (x & Hb & Hkx & Hx).
@@ -982,5 +987,193 @@ Section Out.
       now rewrite Ek.
     - rewrite QE. apply Forall_forall. intros a Ha'. rewrite Forall_forall in GF. specialize (GF a Ha').
       destruct (D2 _ GF) as (_ & B & P1 & _). split; [exact P1 | exact B].
+  Qed.
+
+  (* ---------------------------------------------------------------- an operation in a watched directory produces a record *)
+  Lemma knotify_queue_mono k ino bit isd c name : k_queue k <> [] -> k_queue (knotify k ino bit isd c name) <> [].
+  Proof.
+    intros H. destruct (knotify_cases k ino bit isd c name) as [->|(kw & _ & _ & ->)]; [exact H|]. cbn.
+    destruct (CoverProofs.kpush_cases (k_queue k) (kev kw bit isd c name)) as [E|E]; rewrite E; [exact H|]. now destruct (k_queue k).
+  Qed.
+
+  Lemma knotify_queue_hit k ino bit isd c name kw : watch_of_ino k ino = Some kw -> N.land bit (kw_mask kw) <> 0%N ->
+    k_queue (knotify k ino bit isd c name) <> [].
+  Proof.
+    intros Hw Hm. rewrite (knotify_watched k ino bit isd c name kw Hw Hm). cbn.
+    destruct (CoverProofs.kpush_cases (k_queue k) (kev kw bit isd c name)) as [E|E]; rewrite E; [|now destruct (k_queue k)].
+    unfold kpush in E. destruct (rev (k_queue k)) eqn:Er; [|intros H0; rewrite H0 in Er; discriminate].
+    destruct (k_queue k); [discriminate | discriminate].
+  Qed.
+
+  Lemma kgone_queue_mono k ino af : k_queue k <> [] -> k_queue (kgone k ino af) <> [].
+  Proof.
+    intros H. unfold kgone. destruct (watch_of_ino k ino) as [w0|]; [|exact H]. cbn [k_queue].
+    set (q1 := k_queue _). destruct (CoverProofs.kpush_cases q1 {| k_wd := kw_wd w0; k_mask := IN_IGNORED; k_cookie := 0; k_name := [] |}) as [E|E]; rewrite E.
+    - unfold q1. apply knotify_queue_mono. destruct af; [now apply knotify_queue_mono | exact H].
+    - now destruct q1.
+  Qed.
+
+  Definition parents (o : op) : list bytes :=
+    match o with
+    | Touch p | Write p | Chmod p | Unlink p | Mkdir p | Rmdir p => [dirname p]
+    | Rename p q => [dirname p; dirname q]
+    end.
+
+  (* the operation acts in a directory of the tree *)
+  Definition watched_parent (w : world) (o : op) : Prop :=
+    exists d, In d (parents o) /\ scope C d /\ fisdir d (w_fs w) = true.
+
+  Lemma record_produced w k r o : c_mask C = WATCHDOG_ALL -> wf_fs w -> Cover C (w_fs w) k r ->
+    (forall kw, In kw (k_watches k) -> kw_mask kw = c_mask C) -> watched_parent w o ->
+    k_queue (kernel_op k (w_fs w) o) <> [].
+  Proof.
+    intros Hm W Cv Hmask (d & Hd & Sd & Fd).
+    destruct (fisdir_in _ _ Fd) as (de & Hde & Ede & Dde). rewrite <- Ede in Sd.
+    destruct (Cv de Hde Dde Sd) as (kw & Cw & _). destruct (watch_of_ino_some _ _ _ Cw) as [Hk _].
+    assert (Mk : kw_mask kw = WATCHDOG_ALL) by (rewrite (Hmask kw Hk); exact Hm).
+    assert (Eino : ino_of (w_fs w) d = f_ino de).
+    { unfold ino_of. rewrite <- Ede. now rewrite (flookup_in _ de (wf_paths w W) Hde). }
+    assert (Hit : forall k0 bit isd c name, k_watches k0 = k_watches k -> N.land bit WATCHDOG_ALL <> 0%N ->
+              k_queue (knotify k0 (ino_of (w_fs w) d) bit isd c name) <> []).
+    { intros k0 bit isd c name Hw Hb. apply (knotify_queue_hit k0 _ bit isd c name kw); [|now rewrite Mk].
+      rewrite (watch_of_ino_ext k k0) by exact Hw. now rewrite Eino. }
+    destruct o as [p|p|p|p|p|p|p q]; cbn [parents] in Hd; cbn [kernel_op].
+    - destruct Hd as [<-|[]]. do 2 apply knotify_queue_mono. apply Hit; [reflexivity | vm_compute; discriminate].
+    - destruct Hd as [<-|[]]. do 2 apply knotify_queue_mono. apply Hit; [reflexivity | vm_compute; discriminate].
+    - destruct Hd as [<-|[]]. destruct (fisdir p (w_fs w)); [apply knotify_queue_mono|]; (apply Hit; [reflexivity | vm_compute; discriminate]).
+    - destruct Hd as [<-|[]]. apply Hit; [reflexivity | vm_compute; discriminate].
+    - destruct Hd as [<-|[]]. apply Hit; [reflexivity | vm_compute; discriminate].
+    - destruct Hd as [<-|[]].
+      destruct (watch_of_ino k (ino_of (w_fs w) p)) as [wp|] eqn:Ewp.
+      + apply knotify_queue_mono. unfold kgone. rewrite Ewp. cbn [k_queue].
+        set (q1 := k_queue _). destruct (CoverProofs.kpush_cases q1 {| k_wd := kw_wd wp; k_mask := IN_IGNORED; k_cookie := 0; k_name := [] |}) as [E|E]; rewrite E.
+        * unfold kpush in E. destruct (rev q1) eqn:Er; [|intros H0; rewrite H0 in Er; discriminate]. destruct q1; discriminate.
+        * now destruct q1.
+      + unfold kgone. rewrite Ewp. apply Hit; [reflexivity | vm_compute; discriminate].
+    - set (k0 := {| k_watches := k_watches k; k_next_wd := k_next_wd k; k_queue := k_queue k; k_next_cookie := k_next_cookie k + 1 |}).
+      assert (H2 : k_queue (knotify (knotify k0 (ino_of (w_fs w) (dirname p)) IN_MOVED_FROM (fisdir p (w_fs w)) (k_next_cookie k) (basename p))
+                      (ino_of (w_fs w) (dirname q)) IN_MOVED_TO (fisdir p (w_fs w)) (k_next_cookie k) (basename q)) <> []).
+      { destruct Hd as [<-|[<-|[]]].
+        - apply knotify_queue_mono. apply Hit; [reflexivity | vm_compute; discriminate].
+        - apply Hit; [|vm_compute; discriminate].
+          destruct (knotify_cases k0 (ino_of (w_fs w) (dirname p)) IN_MOVED_FROM (fisdir p (w_fs w)) (k_next_cookie k) (basename p)) as [->|(kw' & _ & _ & ->)]; reflexivity. }
+      destruct (fisdir q (w_fs w)); [now apply kgone_queue_mono | exact H2].
+  Qed.
+
+  (* ---------------------------------------------------------------- sequential histories past directory move-outs *)
+  Theorem out_pout_junk w k r p q w' ep : JSync w k r -> npath p -> npath q -> c_recursive C = true ->
+    N.land IN_MOVED_FROM (c_mask C) <> 0%N -> N.land IN_MOVED_TO (c_mask C) <> 0%N ->
+    apply_op w (Rename p q) = Some w' -> flookup p (w_fs w) = Some ep -> f_dir ep = true ->
+    scope C p -> p <> root -> ~ scope C q ->
+    let k1 := kernel_op k (w_fs w) (Rename p q) in
+    exists r' k' evs, read_batch C (w_fs w') (r, drainq k1, []) (k_queue k1) = Done (r', k', evs) /\
+      POut w' k' r' q (k_next_cookie k) p /\ Forall (rsafe C) evs.
+  Proof.
+    intros [S HJ] Np Nq Hrec Hmf Hmt Ha Elp Dep Sp Hpr Sq k1.
+    assert (Q : qext (k_queue k) k (kset_queue k [])) by (repeat split; cbn; now rewrite ?app_nil_r).
+    assert (JF : jfree (k_queue k) (kset_queue k [])).
+    { intros a kw Ha' Hk. rewrite Forall_forall in HJ. destruct (HJ a Ha') as [_ H]. now apply H. }
+    assert (Q1 := kernel_op_qext _ _ _ (w_fs w) (Rename p q) Q JF). fold k1 in Q1.
+    destruct (out_pout w (kset_queue k []) r p q w' ep S Np Nq Hrec Hmf Hmt Ha Elp Dep Sp Hpr Sq) as (r' & k' & evs & Hrd & PO & Hsafe).
+    exists r', k', evs. split; [|split; assumption].
+    rewrite (qext_drainq _ _ _ Q1). destruct Q1 as (_ & _ & _ & ->).
+    rewrite read_batch_skip; [exact Hrd | apply (rs_pend _ _ _ _ S)|].
+    eapply Forall_impl; [|exact HJ]. intros a [H _]. exact H.
+  Qed.
+
+  (* the operations covered now: C02's covered_op plus a directory moved out of the tree *)
+  Inductive covered_x (w : world) : op -> Prop :=
+  | cx_op o : covered_op C w o -> covered_x w o
+  | cx_out p q ep : npath p -> npath q -> c_recursive C = true -> flookup p (w_fs w) = Some ep -> f_dir ep = true ->
+      scope C p -> p <> root -> ~ scope C q -> covered_x w (Rename p q).
+
+  Definition is_dir_out (w : world) (o : op) : option bytes :=
+    match o with
+    | Rename p q => if c_recursive C && fisdir p (w_fs w) && scopeb C p && negb (beqb p root) && negb (scopeb C q) then Some q else None
+    | _ => None
+    end.
+
+  (* hot = Some h: a directory has just been moved out to h and no record has been processed since.  The next
+     applicable operation must be one of covered_op, act in a directory of the tree (so that it produces a record) and
+     must not notify a directory inside the departed one. *)
+  Fixpoint ops_x (w : world) (hot : option bytes) (ops : list op) : Prop :=
+    match ops with
+    | [] => True
+    | o :: ops' =>
+      match apply_op w o with
+      | None => ops_x w hot ops'
+      | Some w' =>
+        match hot with
+        | None => covered_x w o /\ ops_x w' (is_dir_out w o) ops'
+        | Some h => covered_op C w o /\ watched_parent w o /\ (forall d, In d (notified o) -> blw h d = false) /\
+                    ops_x w' None ops'
+        end
+      end
+    end.
+
+  Definition GS (w : world) (k : kst) (r : rstate) (hot : option bytes) : Prop :=
+    match hot with
+    | None => JSync w k r
+    | Some h => exists c p, POut w k r h c p
+    end.
+
+  Lemma scopeb_false p : scopeb C p = false <-> ~ scope C p.
+  Proof. rewrite <- scopeb_spec. destruct (scopeb C p); split; congruence. Qed.
+
+  Lemma covered_op_not_out w o : covered_op C w o -> is_dir_out w o = None.
+  Proof.
+    intros Ho.
+    destruct Ho as [o Hqo Hn|p Hn|p Hn Hr|p q ep Np Nq El De Ed|p q ep Np Nq Hrec El De Sp Hpr Sq Elq
+                    |p q ep Np Nq Hrec Hfix El De Sp Hpr Sq Elq|p q ep v Np Nq Hrec El De Sp Hpr Sq Hqr Elq Dv
+                    |p q ep Np Nq El De Hpr Hqr Hupr Hpl]; cbn [is_dir_out]; try reflexivity.
+    - destruct o; try contradiction; reflexivity.
+    - unfold fisdir. rewrite El, De. now destruct (c_recursive C).
+    - rewrite (proj2 (scopeb_spec C q) Sq). cbn [negb]. now rewrite andb_false_r.
+    - assert (E : scopeb C p = false) by now apply scopeb_false. rewrite E. now rewrite andb_false_r.
+    - rewrite (proj2 (scopeb_spec C q) Sq). cbn [negb]. now rewrite andb_false_r.
+    - destruct Hpl as [Hr|[Hs _]]; [now rewrite Hr|].
+      assert (E : scopeb C p = false) by now apply scopeb_false. rewrite E. now rewrite andb_false_r.
+  Qed.
+
+  Theorem cover_sequential_x : c_mask C = WATCHDOG_ALL -> forall ops w k r hot, GS w k r hot -> ops_x w hot ops ->
+    exists w' k' r' hot', rrun C w k r ops = Some (w', k', r') /\ GS w' k' r' hot'.
+  Proof.
+    intros Hm.
+    assert (M : mask_ok C) by (unfold mask_ok; rewrite Hm; repeat split; vm_compute; discriminate).
+    induction ops as [|o ops IH]; intros w k r hot G Hc; cbn [rrun ops_x] in *.
+    - exists w, k, r, hot. now split.
+    - destruct (apply_op w o) as [w'|] eqn:Ea; [|now apply (IH w k r hot)].
+      destruct hot as [h|]; cbn [GS] in G.
+      + destruct G as (c & p & PO). destruct Hc as (Ho & Hwp & Hnh & Hc).
+        assert (Qne := record_produced w k r o Hm (rs_wf _ _ _ _ (po_clean _ _ _ _ _ _ PO)) (po_cover _ _ _ _ _ _ PO) (po_mask _ _ _ _ _ _ PO) Hwp).
+        destruct (pout_step w k r h c p o w' M PO Ho Hnh Ea Qne) as (r' & k' & evs & -> & J' & _).
+        now apply (IH w' k' r' None).
+      + destruct Hc as [Ho Hc]. destruct Ho as [o Ho|p q ep Np Nq Hrec El De Sp Hpr Sq].
+        * destruct (cover_step_junk w k r o w' M G Ho Ea) as (r' & k' & evs & -> & S' & _).
+          rewrite (covered_op_not_out w o Ho) in Hc. apply (IH w' k' r' None); [now apply RSync_JSync | exact Hc].
+        * destruct M as (M1 & M2 & M3).
+          destruct (out_pout_junk w k r p q w' ep G Np Nq Hrec M2 M3 Ea El De Sp Hpr Sq) as (r' & k' & evs & -> & PO & _).
+          assert (Eo : is_dir_out w (Rename p q) = Some q).
+          { cbn [is_dir_out]. unfold fisdir. rewrite El, De, Hrec. rewrite (proj2 (scopeb_spec C p) Sp).
+            assert (E1 : beqb p root = false) by now apply beqb_neq. assert (E2 : scopeb C q = false) by now apply scopeb_false.
+            now rewrite E1, E2. }
+          rewrite Eo in Hc. apply (IH w' k' r' (Some q)); [now exists (k_next_cookie k), p | exact Hc].
+  Qed.
+
+  Lemma GS_cover w k r hot : GS w k r hot -> wf_fs w /\ Cover C (w_fs w) k r.
+  Proof.
+    destruct hot as [h|]; cbn [GS].
+    - intros (c & p & PO). split; [apply (rs_wf _ _ _ _ (po_clean _ _ _ _ _ _ PO)) | apply (po_cover _ _ _ _ _ _ PO)].
+    - intros [S _]. split; [apply S|]. apply (Cover_ext C (w_fs w) (w_fs w) (kset_queue k [])); [apply S | auto | reflexivity].
+  Qed.
+
+  Theorem cover_from_start_x ops w : c_mask C = WATCHDOG_ALL -> wf_fs w -> fisdir root (w_fs w) = true -> ops_x w None ops ->
+    exists r0 k0 w' k' r', construct C kinit (w_fs w) = Some (r0, k0) /\ rrun C w k0 r0 ops = Some (w', k', r') /\
+      wf_fs w' /\ Cover C (w_fs w') k' r'.
+  Proof.
+    intros Hm W Hroot Hc. destruct (construct_cover C Hfaults w W Hroot) as (r0 & k0 & Hcons & I & Cv & Hq & _ & Hp0).
+    assert (S : RSync C w k0 r0) by (constructor; try assumption; now apply fisdir_in).
+    destruct (cover_sequential_x Hm ops w k0 r0 None (RSync_JSync _ _ _ S) Hc) as (w' & k' & r' & hot' & Hrun & G).
+    exists r0, k0, w', k', r'. split; [assumption|]. split; [assumption|]. now apply (GS_cover _ _ _ hot').
   Qed.
 End Out.
